@@ -23,6 +23,7 @@ func init() {
 }
 
 func runC26(c *core.Ctx) {
+	checkSelectorBoundsFromConfig(c, "C26.bounds-from-config")
 	checkBnbMiddleAgrees(c)
 	checkCoinSelectorArithmetic(c)
 	ss := c.Fn(pkBtc, "CoinSelector.SortedSearch")
